@@ -163,7 +163,7 @@ def run(tier):
         for ni, p in enumerate(nesting(d)):
             for gen in ("retain_lines", "dense:1", "readable:0"):
                 cases.append({"id": "q%d_%d_%s" % (d, ni, gen), "mode": "process", "src": p, "label": "nesting%d" % d, "generator": gen, "rules": ["'compute_expression'", "'rename_variables'"]})
-    for r in vlib.pinned_reproducers(PID):
+    for r in [r for r in vlib.pinned_reproducers(PID) if "src" in r or "srcb" in r]:
         cases.append(dict({"mode": "parse", "label": "pinned", "generator": "", "rules": []}, **r))
     cases.append({"id": "reg-surrogate", "mode": "parse", "src": "return \"\\u{D800}\"", "label": "regression", "generator": "", "rules": []})
     op = run_driver(rep.wd, "main", cases)
